@@ -46,11 +46,17 @@ pub struct Config {
   pub schedule: Vec<Tid>,
   pub budget: usize,
   pub stack_size: usize,
+  /// `Replay` default policy refinement: once the explicit schedule is
+  /// exhausted, the first thread of this list that is a candidate runs; if none
+  /// is, the usual default applies. Empty = plain default.
+  pub prefer: Vec<Tid>,
+  /// record every visible action (`A` lines) and object construction (`L` lines)
+  pub trace: bool,
 }
 
 impl Default for Config {
   fn default() -> Self {
-    Config { strategy: Strategy::Replay, schedule: Vec::new(), budget: 20_000, stack_size: 256 * 1024 }
+    Config { strategy: Strategy::Replay, schedule: Vec::new(), budget: 20_000, stack_size: 256 * 1024, prefer: Vec::new(), trace: false }
   }
 }
 
@@ -71,6 +77,8 @@ pub struct Outcome {
   /// an explicit schedule entry named a thread that was not a candidate
   pub diverged: bool,
   pub threads: usize,
+  /// `A ...` / `L ...` lines in execution order (empty unless `Config::trace`)
+  pub trace: Vec<String>,
 }
 
 #[derive(Clone, Copy, Debug, PartialEq, Eq)]
@@ -107,6 +115,7 @@ struct State {
   budget: usize,
   strategy: Strategy,
   schedule: Vec<Tid>,
+  prefer: Vec<Tid>,
   cursor: usize,
   decisions: Vec<Decision>,
   diverged: bool,
@@ -122,12 +131,104 @@ pub(crate) struct Exec {
   cv: Vec<Condvar>,
   done_cv: Condvar,
   stack_size: usize,
+  trace: bool,
+  tlog: Mutex<TraceLog>,
+}
+
+#[derive(Default)]
+struct TraceLog {
+  lines: Vec<String>,
+  next_atomic: u32,
+  next_mutex: u32,
+  ptrs: std::collections::HashMap<usize, u32>,
 }
 
 static EXEC_IDS: AtomicU64 = AtomicU64::new(1);
 
 thread_local! {
   static CUR: RefCell<Option<(Arc<Exec>, Tid)>> = const { RefCell::new(None) };
+  static TRACE: std::cell::Cell<bool> = const { std::cell::Cell::new(false) };
+}
+
+// ---------------------------------------------------------------- action trace
+
+/// Is the calling thread a scheduler thread of an execution that records actions?
+#[inline]
+pub fn tracing() -> bool {
+  TRACE.try_with(|t| t.get()).unwrap_or(false)
+}
+
+/// Register a new traced object; returns its creation index (1-based; 0 = untracked).
+pub(crate) fn new_obj(is_mutex: bool, ty: &str, init: &str, loc: &std::panic::Location<'_>) -> u32 {
+  if !tracing() {
+    return 0;
+  }
+  let Some((ex, me)) = current() else { return 0 };
+  let mut t = ex.tlog.lock().unwrap_or_else(|e| e.into_inner());
+  let id = if is_mutex {
+    t.next_mutex += 1;
+    t.next_mutex
+  } else {
+    t.next_atomic += 1;
+    t.next_atomic
+  };
+  let file = loc.file();
+  let short = match file.rfind("/src/") {
+    Some(i) => &file[i + 5..],
+    None => file,
+  };
+  let name = if is_mutex { format!("m{}", id) } else { format!("a{}:{}", id, ty) };
+  t.lines.push(format!("L {} {} {}:{} {}", name, me, short, loc.line(), init));
+  id
+}
+
+/// Canonical token of a pointer value: `p0` = null, else `p<k>` in first-seen order.
+pub(crate) fn ptr_token(p: usize) -> String {
+  if p == 0 {
+    return "p0".into();
+  }
+  let Some((ex, _)) = current() else { return "p?".into() };
+  let mut t = ex.tlog.lock().unwrap_or_else(|e| e.into_inner());
+  let n = t.ptrs.len() as u32 + 1;
+  let k = *t.ptrs.entry(p).or_insert(n);
+  format!("p{}", k)
+}
+
+/// Append one `A` line for the calling scheduler thread.
+pub(crate) fn log_action(kind: &str, obj: &str, ord: &str, old: &str, new: &str, ok: &str) {
+  let Some((ex, me)) = current() else { return };
+  let mut t = ex.tlog.lock().unwrap_or_else(|e| e.into_inner());
+  t.lines.push(format!("A {} {} {} {} {} {} {}", me, kind, obj, ord, old, new, ok));
+}
+
+/// Harness-level action line (`wake`, ...), only when tracing.
+pub fn note(kind: &str, obj: &str) {
+  if tracing() {
+    log_action(kind, obj, "-", "-", "-", "-");
+  }
+}
+
+/// Number of trace lines recorded so far (0 when not tracing).
+pub fn trace_len() -> usize {
+  if !tracing() {
+    return 0;
+  }
+  match current() {
+    Some((ex, _)) => ex.tlog.lock().unwrap_or_else(|e| e.into_inner()).lines.len(),
+    None => 0,
+  }
+}
+
+pub(crate) fn ord_token(o: std::sync::atomic::Ordering) -> &'static str {
+  use std::sync::atomic::Ordering::*;
+  match o {
+    Relaxed => "rlx",
+    Acquire => "acq",
+    Release => "rel",
+    AcqRel => "acqrel",
+    SeqCst => "sc",
+    _ => "?",
+  }
 }
 
 pub(crate) fn current() -> Option<(Arc<Exec>, Tid)> {
@@ -215,7 +316,10 @@ impl State {
     let chosen = match chosen {
       Some(c) => c,
       None => match self.strategy {
-        Strategy::Replay => default(cands),
+        Strategy::Replay => match self.prefer.iter().find(|t| **t < 32 && cands & (1 << **t) != 0) {
+          Some(t) => *t,
+          None => default(cands),
+        },
         Strategy::Random { .. } => {
           let n = cands.count_ones() as u64;
           let k = self.rng.below(n);
@@ -336,6 +440,13 @@ impl Exec {
     let _st = self.hand_over(me, st, next);
   }
 
+  fn tlog(&self, me: Tid, kind: &str, obj: &str, old: &str, new: &str) {
+    if self.trace {
+      let mut t = self.tlog.lock().unwrap_or_else(|e| e.into_inner());
+      t.lines.push(format!("A {} {} {} - {} {} -", me, kind, obj, old, new));
+    }
+  }
+
   /// `me` cannot continue until someone makes it runnable again.
   fn block<'a>(&'a self, me: Tid, mut st: MutexGuard<'a, State>, why: TS) -> MutexGuard<'a, State> {
     st.ts[me] = why;
@@ -392,8 +503,13 @@ pub fn sched_point() {
 /// thread, if any, runs next.
 #[inline]
 pub fn yield_point() {
+  yield_point_kind("yield")
+}
+
+pub(crate) fn yield_point_kind(kind: &str) {
   if let Some((ex, me)) = current() {
     ex.point(me, true);
+    ex.tlog(me, kind, "-", "-", "-");
   } else {
     std::thread::yield_now();
   }
@@ -426,10 +542,14 @@ pub(crate) fn park() {
       let mut st = ex.lock();
       if st.token[me] {
         st.token[me] = false;
+        drop(st);
+        ex.tlog(me, "park", "-", "1", "0");
         return;
       }
       let mut st = ex.block(me, st, TS::Parked);
       st.token[me] = false;
+      drop(st);
+      ex.tlog(me, "park", "-", "1", "0");
     }
   }
 }
@@ -438,6 +558,9 @@ pub(crate) fn unpark(target: &ThreadInner) {
   match target {
     ThreadInner::Real(t) => {
       sched_point();
+      if let Some((ex, me)) = current() {
+        ex.tlog(me, "unpark", "t?", "-", "-");
+      }
       t.unpark();
     }
     ThreadInner::Sched { exec, tid } => {
@@ -448,9 +571,16 @@ pub(crate) fn unpark(target: &ThreadInner) {
       }
       let mut st = exec.lock();
       if *tid < st.ts.len() {
+        let before = st.token[*tid];
         st.token[*tid] = true;
         if st.ts[*tid] == TS::Parked {
           st.ts[*tid] = TS::Runnable;
+        }
+        drop(st);
+        if let Some((ex, me)) = current() {
+          if Arc::ptr_eq(&ex, exec) {
+            ex.tlog(me, "unpark", &format!("t{}", tid), if before { "1" } else { "0" }, "1");
+          }
         }
       }
     }
@@ -511,7 +641,10 @@ impl<T> SchedJoin<T> {
         let st = ex.lock();
         if st.ts[self.tid] != TS::Finished {
           let _st = ex.block(me, st, TS::Join(self.tid));
+        } else {
+          drop(st);
         }
+        ex.tlog(me, "join", &format!("t{}", self.tid), "-", "-");
       }
     }
     // (unregistered joiner: only legal once the execution is over)
@@ -536,10 +669,13 @@ where
   let ex = exec;
   b.spawn(move || {
     CUR.with(|c| *c.borrow_mut() = Some((ex.clone(), tid)));
+    TRACE.with(|t| t.set(ex.trace));
     ex.wait_turn(tid);
     let r = catch_unwind(AssertUnwindSafe(f));
     *slot2.0.lock().unwrap_or_else(|e| e.into_inner()) = Some(r);
+    ex.tlog(tid, "exit", "-", "-", "-");
     ex.finish(tid);
+    TRACE.with(|t| t.set(false));
     CUR.with(|c| *c.borrow_mut() = None);
   })
   .expect("shim scheduler: OS thread spawn failed");
@@ -559,6 +695,7 @@ where
     let mut st = ex.lock();
     st.new_thread()
   };
+  ex.tlog(me, "spawn", &format!("t{}", tid), "-", "-");
   let stack = stack.unwrap_or(ex.stack_size).max(ex.stack_size);
   let slot = spawn_os(ex.clone(), tid, name, stack, f);
   Ok(SchedJoin { exec: ex, tid, slot })
@@ -591,6 +728,7 @@ where
     budget: cfg.budget,
     strategy: cfg.strategy.clone(),
     schedule: cfg.schedule.clone(),
+    prefer: cfg.prefer.clone(),
     cursor: 0,
     decisions: Vec::new(),
     diverged: false,
@@ -607,17 +745,21 @@ where
     cv: (0..MAX_THREADS).map(|_| Condvar::new()).collect(),
     done_cv: Condvar::new(),
     stack_size: cfg.stack_size,
+    trace: cfg.trace,
+    tlog: Mutex::new(TraceLog::default()),
   });
   let _slot = spawn_os(exec.clone(), 0, None, cfg.stack_size.max(512 * 1024), main);
   let mut st = exec.lock();
   while !st.done && st.abort.is_none() {
     st = exec.done_cv.wait(st).unwrap_or_else(|e| e.into_inner());
   }
+  let trace = std::mem::take(&mut exec.tlog.lock().unwrap_or_else(|e| e.into_inner()).lines);
   Outcome {
     status: st.abort.clone().unwrap_or(Status::Ok),
     decisions: std::mem::take(&mut st.decisions),
     steps: st.steps,
     diverged: st.diverged,
     threads: st.ts.len(),
+    trace,
   }
 }
